@@ -13,6 +13,7 @@ import asyncio
 
 import codecio
 import gen
+import priv
 import streams
 import vloop
 from common import hx
@@ -35,8 +36,8 @@ class World:
             return uart.ZbossNcpProtocol(cfg, self.api)
         self.p = self.loop.run_until_complete(mk())
         self.wlog = []
-        self.p._transport = rxworld.RecTransport(self.wlog)
-        self.api._uart = self.p
+        self.p.connection_made(rxworld.RecTransport(self.wlog))
+        priv.put(self.api, "api", "uart", self.p)
         self.got = []
         self.listening = set()
 
